@@ -39,6 +39,7 @@ import (
 	"github.com/megaease/easegress/pkg/object/pipeline"
 	"github.com/megaease/easegress/pkg/protocols/httpprot/httpstat"
 	"github.com/megaease/easegress/pkg/supervisor"
+	"verif.local/kit"
 )
 
 func init() { logger.InitNop() }
@@ -145,6 +146,7 @@ type e2eSeen struct {
 	Chunked    bool
 	CL         int64
 	N          int
+	Contacts   []string // remote address and time of every contact for this id
 }
 
 type e2eBackend struct {
@@ -217,6 +219,13 @@ func (b *e2eBackend) Take(id string) *e2eSeen {
 	return s
 }
 
+// Contacted tells whether id has reached the backend.
+func (b *e2eBackend) Contacted(id string) bool {
+	b.mu.Lock()
+	defer b.mu.Unlock()
+	return b.seen[id] != nil
+}
+
 func (b *e2eBackend) Total() int64 {
 	b.mu.Lock()
 	defer b.mu.Unlock()
@@ -240,8 +249,10 @@ func (b *e2eBackend) ServeHTTP(w http.ResponseWriter, r *http.Request) {
 	}
 	b.mu.Lock()
 	b.total++
+	seen.Contacts = []string{r.RemoteAddr + " " + time.Now().Format("15:04:05.000000")}
 	if old := b.seen[id]; old != nil {
 		seen.N = old.N + 1
+		seen.Contacts = append(old.Contacts, seen.Contacts...)
 	}
 	b.seen[id] = seen
 	sc := b.scripts[id]
@@ -296,6 +307,10 @@ func (b *e2eBackend) ServeHTTP(w http.ResponseWriter, r *http.Request) {
 		h := w.Header()
 		for _, kv := range sc.Headers {
 			h.Add(kv[0], kv[1])
+		}
+		if sc.Status == 204 || sc.Status == 304 {
+			w.WriteHeader(sc.Status)
+			return
 		}
 		h.Set("Content-Length", strconv.Itoa(len(sc.Body)))
 		w.WriteHeader(sc.Status)
@@ -421,11 +436,73 @@ func (m e2eMapper) GetHandler(name string) (context.Handler, bool) {
 }
 
 type e2eGateway struct {
-	mux  *mux
-	pl   *pipeline.Pipeline
-	srv  *http.Server
-	ln   net.Listener
-	addr string
+	mux    *mux
+	pl     *pipeline.Pipeline
+	srv    *http.Server
+	ln     net.Listener
+	addr   string
+	errlog e2eLog
+}
+
+// e2eLog collects what net/http's server reports (handler panics end up here), one
+// entry per log call.
+type e2eLog struct {
+	mu      sync.Mutex
+	entries []string
+}
+
+func (l *e2eLog) Write(p []byte) (int, error) {
+	l.mu.Lock()
+	if len(l.entries) < 4096 {
+		e := string(p)
+		if len(e) > 6000 {
+			e = e[:6000]
+		}
+		l.entries = append(l.entries, e)
+	}
+	l.mu.Unlock()
+	return len(p), nil
+}
+
+// TakePanics returns and removes the "http: panic serving <addr>" entries of the given
+// client addresses (all panic entries if addrs is nil).
+func (l *e2eLog) TakePanics(addrs []string) []string {
+	l.mu.Lock()
+	defer l.mu.Unlock()
+	var out, keep []string
+	for _, e := range l.entries {
+		hit := false
+		if strings.HasPrefix(e, "http: panic serving ") {
+			if addrs == nil {
+				hit = true
+			}
+			for _, a := range addrs {
+				if strings.HasPrefix(e, "http: panic serving "+a+": ") {
+					hit = true
+				}
+			}
+		}
+		if hit {
+			out = append(out, e)
+		} else {
+			keep = append(keep, e)
+		}
+	}
+	l.entries = keep
+	return out
+}
+
+// e2ePanicSig reduces a "http: panic serving" entry to site and message class.
+func e2ePanicSig(entry string) (site, msg string) {
+	msg = entry
+	if j := strings.Index(msg, "\n"); j > 0 {
+		msg = msg[:j]
+	}
+	msg = strings.TrimPrefix(msg, "http: panic serving ")
+	if j := strings.Index(msg, ": "); j > 0 {
+		msg = msg[j+2:]
+	}
+	return kit.PanicSite(entry), kit.MsgClass(msg)
 }
 
 // e2eStart builds the pipeline and the mux through the real spec/Init path and serves
@@ -455,10 +532,11 @@ func e2eStart(cfg *e2eCfg, be *e2eBackend) (g *e2eGateway, err error) {
 		pl.Close()
 		return nil, err
 	}
-	srv := &http.Server{Handler: m, ErrorLog: log.New(io.Discard, "", 0)}
-	srv.SetKeepAlivesEnabled(true)
-	go srv.Serve(ln)
-	return &e2eGateway{mux: m, pl: pl, srv: srv, ln: ln, addr: ln.Addr().String()}, nil
+	g = &e2eGateway{mux: m, pl: pl, ln: ln, addr: ln.Addr().String()}
+	g.srv = &http.Server{Handler: m, ErrorLog: log.New(&g.errlog, "", 0)}
+	g.srv.SetKeepAlivesEnabled(true)
+	go g.srv.Serve(ln)
+	return g, nil
 }
 
 func (g *e2eGateway) Close() {
@@ -802,6 +880,8 @@ func (cl *e2eClient) Close() {
 }
 
 type e2eResult struct {
+	Addrs    []string // local addresses of the connections used
+	Resent   bool     // the request was sent again on a fresh connection (see Do)
 	Resp     *e2eResp
 	IOErr    string // I/O error that ended reading (after FramingErr was set), "" if none
 	Watchdog bool   // the deadline fired: inconclusive
@@ -809,20 +889,38 @@ type e2eResult struct {
 	Reused   bool   // sent on a connection that had served a response before
 }
 
-// Do performs one exchange.  A request is never pipelined.
-func (cl *e2eClient) Do(q *e2eReq) *e2eResult {
+// alive tells whether a kept connection is still open (the server may close it after a
+// response without announcing it).
+func (c *e2eConn) alive() bool {
+	c.c.SetReadDeadline(time.Now().Add(2 * time.Millisecond))
+	_, err := c.br.Peek(1)
+	c.c.SetReadDeadline(time.Time{})
+	return err == nil || e2eIsTimeout(err)
+}
+
+// Do performs one exchange.  A request is never pipelined.  contacted (may be nil)
+// tells whether the backend has seen this exchange: a request that met a dead kept-alive
+// connection is sent again on a fresh one only if it provably was not processed.
+func (cl *e2eClient) Do(q *e2eReq, contacted func() bool) *e2eResult {
+	var addrs []string
 	for attempt := 0; ; attempt++ {
+		if cl.conn != nil && cl.conn.used > 0 && !cl.conn.alive() {
+			cl.Close()
+			cl.Reconnects++
+		}
 		reused := cl.conn != nil && cl.conn.used > 0
 		if cl.conn == nil {
 			if err := cl.dial(); err != nil {
 				return &e2eResult{Resp: &e2eResp{FramingErr: "dial-failed"}, IOErr: err.Error(), Watchdog: true}
 			}
 		}
+		addrs = append(addrs, cl.conn.c.LocalAddr().String())
 		res := cl.once(q)
 		res.Reused = reused
-		// A kept-alive connection may have been closed by the server after the previous
-		// response without an announcement; nothing of this request was processed then.
-		if reused && attempt == 0 && res.Resp.FramingErr == "eof-before-status-line" && !res.Watchdog {
+		res.Addrs = addrs
+		res.Resent = attempt > 0
+		if reused && attempt == 0 && res.Resp.FramingErr == "eof-before-status-line" && !res.Watchdog &&
+			contacted != nil && !contacted() {
 			cl.Close()
 			cl.Reconnects++
 			continue
